@@ -90,6 +90,72 @@ def interrupted_saves(ctx, ld):
                                     cls="C12-torn-accepted")
 
 
+def interrupted_writes(ctx, ld):
+    """the writer interrupted INSIDE any of its own `write()` calls, in the order it issues them (whatever that order is): the
+    file object stores the first b bytes of call number c and then fails like a full device.  What is on disk afterwards is
+    either the complete file or must not load.  (Row-id arrays go to the descriptor directly; those writes are cut in
+    `interrupted_saves`.)"""
+    import io
+    import os
+    import tempfile
+    import numpy as np
+    from catii.indxio import IndxIO
+
+    class CrashingFile(io.FileIO):
+        def __init__(self, path, call, byte):
+            super().__init__(path, "w")
+            self.crash, self.calls = (call, byte), []
+
+        def write(self, data):
+            data = bytes(data)
+            n = len(self.calls)
+            self.calls.append(len(data))
+            if self.crash[0] == n:
+                super().write(data[:self.crash[1]])
+                raise OSError(28, "No space left on device")
+            return super().write(data)
+
+    for lens in ([60, 40], [3, 2, 4], [700]):
+        arrays = [np.arange(5, 5 + 2 * L, 2, dtype=np.uint32) for L in lens]
+        d = {(q + 1,): a for q, a in enumerate(arrays)}
+        full = X.spec_encode([[[q + 1], a.tolist()] for q, a in enumerate(arrays)], 0)
+        with tempfile.TemporaryDirectory(prefix="catii-indx-") as td:
+            path = os.path.join(td, "x.indx")
+            f = CrashingFile(path, None, 0)
+            try:
+                IndxIO.save(f, d, 0, np.dtype(np.uint32))
+            finally:
+                f.close()
+            calls = list(f.calls)
+            for c, n in enumerate(calls):
+                for b in sorted({0, 1, n // 2, n - 1}):
+                    if not 0 <= b < n:
+                        continue
+                    case = {"interrupted_write": {"entry_lengths": lens, "write_call": c, "of": len(calls), "bytes_of_it_written": b}}
+                    ctx.case(case, nontrivial=True)
+                    ctx.evaluations += 1
+                    ctx.hit("interrupted_write")
+                    f = CrashingFile(path, c, b)
+                    try:
+                        IndxIO.save(f, d, 0, np.dtype(np.uint32))
+                        raised = False
+                    except OSError:
+                        raised = True
+                    finally:
+                        f.close()
+                    left = open(path, "rb").read()
+                    if not raised:
+                        ctx.oracle_fail("save swallowed the error of its write call %d" % c, case, cls="C12-torn-accepted")
+                        continue
+                    if left == full:
+                        continue
+                    lo = ld.load(left)
+                    if lo[0] == "ok":
+                        ctx.oracle_fail("a save interrupted %d bytes into its write call %d of %d (entries of %s row ids) left a %d-byte file "
+                                        "(complete: %d bytes, differs from it) that loads and returns %s" % (
+                                            b, c, len(calls), lens, len(left), len(full), str(lo[1])[:80]), case, cls="C12-torn-accepted")
+
+
 def run(ctx):
     core.load_catii()
     ld = X.Loader()
@@ -173,6 +239,7 @@ def run(ctx):
         ctx.hit("file_object_kinds", n_obj)
         ctx.exhaustive.append("every cut point of %d files as BytesIO / BufferedReader / unbuffered file objects" % n_obj)
         interrupted_saves(ctx, ld)
+        interrupted_writes(ctx, ld)
         if ctx.oracle_only:
             return
         for (case, res), m in zip(pend, ctx.model.run(reqs)):
@@ -197,6 +264,10 @@ def replay(ctx, rep):
             return ld.load(b[:c["cut"]])[0] != "ok"
         finally:
             ld.close()
+    if "interrupted_write" in c:
+        n0 = len(ctx.oracle_failures)
+        interrupted_writes(ctx, ld)
+        return len(ctx.oracle_failures) == n0
     if "interrupted_save" in c:
         c2 = core.Ctx(ID, "quick", 0)
         ld = X.Loader()
